@@ -1210,6 +1210,8 @@ class Executor:
     def compare(self, op, a, b):
         a, b = exact(a), exact(b)
         name = type(op).__name__
+        if name in ('Eq', 'NotEq') and isinstance(a, PyFn) and isinstance(b, PyFn):
+            return (a is b) if name == 'Eq' else (a is not b)      # type objects / builtins compare by identity
         inf_a, inf_b = _inf_sign(a), _inf_sign(b)
         if (inf_a or inf_b) and name in ('Eq', 'NotEq', 'Lt', 'LtE', 'Gt', 'GtE') and all(x or (is_scalar(y) and not isinstance(y, bool)) for x, y in ((inf_a, a), (inf_b, b))):
             va = inf_a * 2 if inf_a else 0      # any finite real lies strictly between -inf and +inf
@@ -1405,6 +1407,10 @@ class Executor:
             ex._mutated(obj, 'insert')
 
         def pop(i=-1):
+            if not isinstance(i, int) or isinstance(i, bool) and False:
+                raise PyRaise('TypeError', "'%s' object cannot be interpreted as an integer" % type(i).__name__)
+            if not -len(obj.items) <= i < len(obj.items):
+                raise PyRaise('IndexError', 'pop index out of range')
             ex._mutated(obj, 'pop')
             return obj.items.pop(i)
 
@@ -1432,6 +1438,8 @@ class Executor:
             return PyFn(table[name], 'list.' + name)
         if name in getattr(obj, 'attrs', {}):
             return obj.attrs[name]
+        if name == 'transpose' and obj.kind == 'ndarray':
+            return PyFn(lambda *a, **k: self.call(self.lib_attr('numpy', 'transpose'), [obj] + ([a[0]] if len(a) == 1 else ([VList(list(a))] if a else [])), k), 'ndarray.transpose')
         if name == 'sum' and obj.kind == 'ndarray':
             return PyFn(lambda *a, **k: self.np_sum(obj, *a, **k), 'ndarray.sum')
         if name == 'T' and obj.kind == 'ndarray':
@@ -1796,6 +1804,54 @@ class Executor:
                         return VList([self.binop(ast.Sub(), x.items[i + 1], x.items[i]) for i in range(len(x.items) - 1)], 'ndarray')
                     return Tm('call:numpy.diff', x, *a)
                 return PyFn(diff, 'numpy.diff')
+            if name == 'indices':
+                def indices(shape):
+                    shape = tuple(self.iterate(shape))
+                    if not all(isinstance(n_, int) for n_ in shape):
+                        raise Unsupported('symbolic numpy.indices')
+                    def build(k, prefix, dims):
+                        if not dims:
+                            return prefix[k]
+                        return VList([build(k, prefix + [i], dims[1:]) for i in range(dims[0])], 'ndarray')
+                    return VList([build(k, [], list(shape)) for k in range(len(shape))], 'ndarray')
+                return PyFn(indices, 'numpy.indices')
+            if name == 'transpose':
+                def transpose(a, axes=None):
+                    def rank(v):
+                        r = 0
+                        while isinstance(v, VList):
+                            r += 1
+                            v = v.items[0] if v.items else None
+                        return r
+                    r = rank(a)
+                    axes_ = list(range(r))[::-1] if axes is None else [int(x) for x in self.iterate(axes)]
+                    if sorted(axes_) != list(range(r)):
+                        raise PyRaise('ValueError', "axes don't match array")
+                    shp = self.list_method(a, 'shape')
+                    def get(v, idx):
+                        for i in idx:
+                            v = v.items[i]
+                        return v
+                    new_shape = [shp[ax] for ax in axes_]
+                    def build(prefix, dims):
+                        if not dims:
+                            src = [0] * r
+                            for pos, ax in enumerate(axes_):
+                                src[ax] = prefix[pos]
+                            return get(a, src)
+                        return VList([build(prefix + [i], dims[1:]) for i in range(dims[0])], 'ndarray')
+                    return build([], new_shape)
+                return PyFn(transpose, 'numpy.transpose')
+            if name == 'mean':
+                def mean(x, *a, **k):
+                    if isinstance(x, VList) and not a and not k and all(is_scalar(exact(i)) for i in x.items) and x.items:
+                        return self.binop(ast.Div(), self.np_sum(x), len(x.items))
+                    ax = a[0] if a else k.get('axis')
+                    if isinstance(x, VList) and isinstance(ax, int) and not isinstance(ax, bool) and len(a) <= 1 and set(k) <= {'axis'}:
+                        shp = self.list_method(x, 'shape') if x.kind == 'ndarray' else (len(x.items),)
+                        return self.binop(ast.Div(), self.np_sum(x, axis=ax), shp[ax])
+                    return Tm('call:numpy.mean', x, *a)
+                return PyFn(mean, 'numpy.mean')
             if name == 'dot':
                 def dot(a, b):
                     """numpy.dot on arrays of concrete shape: sum over the last axis of a and the second-to-last (or only) axis of b"""
@@ -2310,7 +2366,20 @@ class Executor:
                     continue
                 kept.append(v)
             return VList(kept, 'set')
-        b = dict(slice=lambda *a: slice(*[exact(x) for x in a]), set=_set, len=_len, range=_range, abs=_abs, min=_min, max=_max, sum=_sum, list=_list, tuple=_tuple,
+        def _type(x):
+            x = exact(x)
+            tbl = [(bool, 'bool'), (int, 'int'), (Fraction, 'float'), (float, 'float'), (str, 'str'), (tuple, 'tuple'), (VDict, 'dict')]
+            if isinstance(x, VList):
+                return out['list'] if x.kind == 'list' else Tm('type:ndarray')
+            for t, n_ in tbl:
+                if isinstance(x, t):
+                    return out[n_]
+            if x is None:
+                return Tm('type:NoneType')
+            if isinstance(x, z3.ExprRef):
+                return out['bool'] if z3.is_bool(x) else (out['int'] if z3.is_int(x) else out['float'])
+            return Tm('type-of', x)
+        b = dict(type=_type, slice=lambda *a: slice(*[exact(x) for x in a]), set=_set, len=_len, range=_range, abs=_abs, min=_min, max=_max, sum=_sum, list=_list, tuple=_tuple,
                  dict=_dict, zip=_zip, enumerate=_enumerate, float=_float, int=_int, bool=_bool,
                  isinstance=_isinstance, hasattr=_hasattr, getattr=_getattr, print=_print, sorted=_sorted,
                  reversed=_reversed, str=_str, map=_map, callable=_callable, any=_any, all=_all, round=_round)
